@@ -1,3 +1,6 @@
 #!/bin/sh
 # developer tool: bring the private evaluation clone (/tmp/vf2, repo copy /tmp/repo2) up to date with /verif
-rsync -a --exclude .lake --exclude target --exclude .work --exclude .git --exclude 'harness/Cargo.toml' --exclude evidence --exclude 'lean/Sm9/Gen/*.lean' --exclude 'lean/Sm9/Gen/*.json' --exclude 'lean/Sm9/Audit' /verif/ /tmp/vf2/
+rsync -a --exclude .lake --exclude target --exclude .work --exclude .git --exclude 'harness/Cargo.toml' --exclude evidence \
+  --exclude 'lean/Sm9/Gen/Consts.lean' --exclude 'lean/Sm9/Gen/Rust.lean' --exclude 'lean/Sm9/Gen/Equiv.lean' --exclude 'lean/Sm9/Gen/LimbRust.lean' \
+  --exclude 'lean/Sm9/Gen/LimbEquiv.lean' --exclude 'lean/Sm9/Gen/*.json' --exclude 'lean/Sm9/Audit' /verif/ /tmp/vf2/
+cp /verif/rs2lean/target/release/rs2lean /tmp/vf2/rs2lean/target/release/rs2lean
